@@ -381,7 +381,15 @@ func runC07(c *Ctx) {
 	enc := p.MustFunc("httpEncodePathValues")
 	nSeg := 0
 	var ops []string
-	ForEachInstr(enc, func(in ssa.Instruction) {
+	// the builder and the helpers it was cut into (refactoring B24_r6)
+	forEachUnder := func(root *ssa.Function, f func(ssa.Instruction)) {
+		for _, g := range SortedFuncs(p.Reach(root)) {
+			if p.inScope(g) {
+				ForEachInstr(g, f)
+			}
+		}
+	}
+	forEachUnder(enc, func(in ssa.Instruction) {
 		b, ok := in.(*ssa.BinOp)
 		if !ok {
 			return
